@@ -1946,6 +1946,17 @@ func (query *Query) exec() (result any, err error) {
 	if err != nil {
 		return nil, err
 	}
+	if query.distinct || len(query.orderByDefinition) > 0 {
+		// DISTINCT and ORDER BY look at the values of the columns: the
+		// outstanding ASYNC calls have to deliver them first
+		query.wg.Wait()
+		for _, postProcessor := range query.postProcessors {
+			if err := postProcessor(); err != nil {
+				return nil, err
+			}
+		}
+		query.postProcessors = query.postProcessors[:0]
+	}
 	rs, err = ExecDistinct(query, rs)
 	if err != nil {
 		return nil, err
